@@ -1,5 +1,6 @@
 import Driver.TreeWire
 import PicoSVG.Model.Pipeline
+import PicoSVG.Spec.Pico
 open PicoSVG Drv SvgObj
 
 namespace Drv
@@ -70,6 +71,10 @@ def handleSvgObj (fields : List String) : Option String :=
         | .ok ((extras, tree), st') =>
           "ok " ++ encTree tree ++ "\x1c" ++ "\x1d".intercalate st'.asked ++ "\x1c" ++ "\x1e".intercalate extras ++
           "\x1c" ++ toString st'.tape.length)
+  | ["spec", "ispico", nd, allow, t] =>
+    match parseNode (t.splitOn "\x1f") with
+    | none => none
+    | some (n, _) => some ("ok " ++ "\x1d".intercalate (Spec.Pico.violations (nd.toInt?.getD 3) (allow == "1") n))
   | _ => none
 
 end Drv
